@@ -1036,10 +1036,12 @@ func (p *Processor) IncomingSpanBatch(batch SpanBatch) {
 // ProcessorHarvest's Type to HarvestFinal, later functions avoid goroutines
 // so that we only return from this function when all harvests complete
 func (p *Processor) CleanExit() {
-	// Terminate p.Run()'s loop and stop receiving data
+	// Terminate p.Run()'s loop and stop receiving data. The channels are
+	// left in place: listener goroutines may still be reading these fields
+	// (IncomingTxnData, IncomingAppInfo), and since nothing receives from
+	// the channels any more their senders simply wait, as they would on a
+	// nil channel.
 	p.quitChan <- struct{}{}
-	p.txnDataChannel = nil
-	p.appInfoChannel = nil
 
 	// Harvest all remaining data
 	for id, ah := range p.harvests {
